@@ -188,12 +188,18 @@ pub fn cread(a: &[Sexp]) -> Sexp {
         let mut items = Vec::new();
         let mut n = 0usize;
         for it in reader {
-            match it {
-                Ok(v) => items.push(ok(vec![value_to_sexp(&v)])),
-                Err(_) => items.push(err()),
+            // only the first 1000 items are kept (the harness must not allocate for a hostile count)
+            if n < 1000 {
+                match it {
+                    Ok(v) => items.push(ok(vec![value_to_sexp(&v)])),
+                    Err(_) => items.push(err()),
+                }
+            } else if it.is_err() {
+                items.push(err());
             }
             n += 1;
-            if n > 2_000_000 {
+            // a block of zero-width items may announce any count in a few bytes: stop collecting
+            if n > 50_000 {
                 items.push(Sexp::tag("runaway", vec![]));
                 break;
             }
